@@ -136,6 +136,24 @@ pub fn gen_entry(rng: &mut Rng) -> AEntry {
     }
 }
 
+/// an entry close to the 8-byte wire minimum (no optional fields, tiny name and value)
+pub fn gen_tiny_entry(rng: &mut Rng) -> AEntry {
+    AEntry {
+        obj_name: if rng.chance(1, 2) { vec![] } else { vec![rng.byte()] },
+        status: None,
+        val_time: None,
+        unit: None,
+        scaler: None,
+        value: match rng.below(4) {
+            0 => AValue::Bytes(vec![]),
+            1 => AValue::Bool(rng.chance(1, 2)),
+            2 => AValue::U8(rng.byte()),
+            _ => AValue::I8(rng.byte() as i8),
+        },
+        value_signature: None,
+    }
+}
+
 pub fn gen_list_len(rng: &mut Rng, max: usize) -> usize {
     let n = match rng.below(12) {
         0 => 0,
@@ -162,12 +180,13 @@ pub fn gen_msg(rng: &mut Rng, max_list: usize) -> AMsg {
         }),
         _ => {
             let n = gen_list_len(rng, max_list);
+            let tiny = rng.chance(1, 4);
             ABody::GetList(AGetList {
                 client_id: opt_bytes(rng, 10),
                 server_id: gen_bytes(rng, 16),
                 list_name: opt_bytes(rng, 10),
                 act_sensor_time: opt_time(rng),
-                val_list: (0..n).map(|_| gen_entry(rng)).collect(),
+                val_list: (0..n).map(|_| if tiny { gen_tiny_entry(rng) } else { gen_entry(rng) }).collect(),
                 list_signature: opt_bytes(rng, 40),
                 act_gateway_time: opt_time(rng),
             })
@@ -239,5 +258,25 @@ pub fn gen_typical(rng: &mut Rng, n_entries: usize) -> AFile {
                 }),
             },
         ],
+    }
+}
+
+/// a file whose last message is a list response made only of near-minimal entries
+pub fn gen_tiny_list_file(rng: &mut Rng, n_entries: usize) -> AFile {
+    AFile {
+        messages: vec![AMsg {
+            transaction_id: gen_bytes(rng, 3),
+            group_no: 0,
+            abort_on_error: 0,
+            body: ABody::GetList(AGetList {
+                client_id: None,
+                server_id: vec![],
+                list_name: None,
+                act_sensor_time: None,
+                val_list: (0..n_entries).map(|_| gen_tiny_entry(rng)).collect(),
+                list_signature: None,
+                act_gateway_time: None,
+            }),
+        }],
     }
 }
